@@ -120,6 +120,9 @@ fn main() {
             let work = vdir.join(".work").join(format!("run-{}-{}", id, std::process::id()));
             let _ = std::fs::create_dir_all(&work);
             let exe = std::env::current_exe().unwrap();
+            if std::env::var("VERIF_RUN_ID").is_err() {
+                std::env::set_var("VERIF_RUN_ID", (std::process::id() % 12).to_string());
+            }
             let modes = (def.modes)(tier);
             let mut children = Vec::new();
             let mut shard_no = 0u32;
